@@ -16,7 +16,7 @@ KnownCfiOps == {"startproc", "endproc", "def_cfa", "def_cfa_register", "def_cfa_
                 "undefined", "same_value", "restore", "remember_state", "restore_state",
                 "personality", "lsda", "return_column"}
 DirRec(d) == CE!DirOfArgs(d.op, d.args, d.sym)
-NoDev == [dropEnd |-> FALSE, dropInit |-> FALSE]
+NoDev == [dropEnd |-> FALSE, dropInit |-> FALSE, lateEnd |-> FALSE]
 \* after CfiExpected the chosen directive list of every cfi item is in field v
 CfiItemsOf(L) == SelectSeq(L, LAMBDA it : it.t = "cfi")
 AllDirs(L) == FlattenSeq([i \in 1..Len(CfiItemsOf(L)) |-> CfiItemsOf(L)[i].v])
@@ -82,13 +82,38 @@ InProcAt(L0, R0, u, o) ==
 AtProcEnd(L0, u, o) ==
   \E i \in DOMAIN L0 : L0[i].t = "cfi" /\ L0[i].u = u /\ L0[i].o = o /\ L0[i].k = "R"
                        /\ L0[i].v # <<>> /\ L0[i].v[1].op = "endproc"
-CfiExpected(E, L0, R0, dev) ==
+\* lateEnd = TRUE reproduces the deviation of finding KF-C08-3: when the end of the
+\* block that carries a procedure's .cfi_endproc is modified, the directive is re-homed
+\* to offset 0 of the following code block, and a patch inserted at offset 0 of THAT
+\* block in the same batch lands in front of it (inside the procedure).
+MovesLate(X, it) ==
+  /\ it.t = "cfi" /\ it.k = "R" /\ it.src # "patch"
+  /\ LET b == BlockByU(X.t.pre, it.u)
+         nb == NextBlockU(X.t.pre, it.u)
+     IN  /\ it.o = b.n /\ b.n > 0
+         /\ TouchesEnd(X.t.pre, X.t.reqs, it.u)
+         /\ nb # 0 /\ BlockByU(X.t.pre, nb).k = "code"
+         /\ \E r \in Range(X.t.reqs) : r.u = nb /\ r.off = 0 /\ r.op \in {"ins", "rep"}
+RECURSIVE MoveLate(_, _, _)
+MoveLate(X, L, cands) ==
+  IF cands = {} THEN L
+  ELSE LET i == CHOOSE x \in cands : \A y \in cands : y <= x       \* last candidate first
+           nb == NextBlockU(X.t.pre, L[i].u)
+           js == {j \in (i + 1)..Len(L) : L[j].t = "pt" /\ L[j].u = nb /\ L[j].o = 0}
+       IN  IF js = {} THEN MoveLate(X, L, cands \ {i})
+           ELSE LET j == CHOOSE x \in js : TRUE
+                IN  MoveLate(X, SubSeq(L, 1, i - 1) \o SubSeq(L, i + 1, j - 1) \o <<L[i]>> \o SubSeq(L, j, Len(L)),
+                             cands \ {i})
+CfiExpected0(E, L0, R0, dev) ==
   LET kept == SelectSeq(E, LAMBDA it :
                  ~(it.t = "cfi" /\ it.src = "patch" /\
                      (~InProcAt(L0, R0, it.au, it.ao) \/ (dev.dropEnd /\ AtProcEnd(L0, it.au, it.ao)))))
       pick == [i \in 1..Len(kept) |->
                  IF kept[i].t = "cfi" /\ dev.dropInit THEN [kept[i] EXCEPT !.v = kept[i].v2] ELSE kept[i]]
   IN  SelectSeq(pick, LAMBDA it : ~(it.t = "cfi" /\ it.v = <<>>))
+CfiExpected(X, E, L0, R0, dev) ==
+  LET L == CfiExpected0(E, L0, R0, dev)
+  IN  IF dev.lateEnd THEN MoveLate(X, L, {i \in DOMAIN L : MovesLate(X, L[i])}) ELSE L
 
 \* the directive stream with byte positions: <<pos, directive>>
 Stream(L) ==
@@ -108,7 +133,7 @@ CfiSec(X, nm, dev) ==
   LET abi == CE!AbiOf(AbiName(X.t))
       L0 == Flat(SecByName(X.t.pre, nm))
       R0 == RunListing(L0, abi)
-      Ex == CfiExpected(X.E[nm], L0, R0, dev)
+      Ex == CfiExpected(X, X.E[nm], L0, R0, dev)
       Re == RunListing(Ex, abi)
       Lp == Flat(SecByName(X.t.post, nm))
       Rp == RunListing(Lp, abi)
